@@ -11,7 +11,8 @@ from collections import OrderedDict
 
 from . import core, decl
 
-CSV = "a,b,c,d\n-3.5,1,-0.75,10\n0.5,2,0.25,20\n2.5,0,1.0,-9999\n-9999,3,-1.0,40\n7.25,-2,0.0,55.5\n"
+# (column e holds a not-a-number and an infinity as ordinary, non-missing cells: a result is whatever its producer made it)
+CSV = "a,b,c,d,e\n-3.5,1,-0.75,10,1.5\n0.5,2,0.25,20,nan\n2.5,0,1.0,-9999,-2\n-9999,3,-1.0,40,inf\n7.25,-2,0.0,55.5,0.25\n"
 
 
 def digest(arr):
@@ -72,6 +73,7 @@ def seed_pool(w):
     w.add("EEMSRead", [("InFileName", "in.csv"), ("InFieldName", "c")])
     w.add("EEMSRead", [("InFileName", "in.csv"), ("InFieldName", "d"), ("MissingVal", -9999)])
     a, b, c, d = w.plain[:4]
+    w.add("EEMSRead", [("InFileName", "in.csv"), ("InFieldName", "e")])
     w.add("CvtToFuzzy", [("InFieldName", a)])
     w.add("CvtToFuzzy", [("InFieldName", c), ("TrueThreshold", 0.5), ("FalseThreshold", -0.5)])
     w.add("CvtToBinary", [("InFieldName", b), ("Threshold", 1), ("Direction", "LowToHigh")])
@@ -222,7 +224,12 @@ def check_C09(tier):
         w.add("CvtToFuzzy", [("InFieldName", w.plain[0])])
         w.add("CvtToFuzzy", [("InFieldName", w.plain[2]), ("TrueThreshold", 0.5), ("FalseThreshold", -0.5)])
         for step in range(10):
-            cname = rng.choice(["EEMSWrite", "EEMSWrite", "Sum", "FuzzyAnd", "Copy"])
+            cname = rng.choice(["EEMSWrite", "EEMSWrite", "Sum", "FuzzyAnd", "Copy", "EEMSRead", "EEMSRead"])
+            if cname == "EEMSRead":
+                # the same variables read once more, with other options: what the earlier reads returned is theirs
+                opts = rng.choice([[("DataType", "Integer")], [("DataType", "Fuzzy")], [("MissingValue", 0.5)], [("DataType", "Positive Float")], []])
+                w.add("EEMSRead", [("InFileName", "in.nc"), ("InFieldName", rng.choice(["a", "c"]))] + opts)
+                continue
             steps = consumer_steps(w, rng, cname)
             if steps:
                 w.add(cname, rng.choice(steps))
